@@ -79,7 +79,7 @@ Theorem c08_modelled_functions_unchanged_u2f_parse : shapes_hold fn_shapes shape
 Proof. exact generated_shapes_u2f_parse. Qed.
 
 (* the third-party crates the model represents by hand are pinned at the versions it was written against *)
-Theorem c08_modelled_dependencies_pinned : deps_hold lock_versions cargo_deps = true.
+Theorem c08_modelled_dependencies_pinned : deps_hold repo_lock_present lock_versions harness_lock_versions cargo_deps = true.
 Proof. exact generated_deps. Qed.
 
 Eval vm_compute in "ASSUMPTIONS c08_decision_table". Print Assumptions c08_decision_table.
